@@ -86,6 +86,9 @@ def check_one(f):
     if back == obj and isinstance(back, (sl.FilterAnd, sl.FilterOr, sl.FilterSubstrings)):
         try:
             (back.any if isinstance(back, sl.FilterSubstrings) else back.filters).append(b"edited" if isinstance(back, sl.FilterSubstrings) else sl.FilterPresent("edited-by-caller"))
+            s_after = str(back)  # the edited tree rendered again
+            if sl.LDAPFilter.from_string(s_after) != back:
+                out.append(("stale-text-after-edit", f"after an edit of the tree its text form {s_after[:80]!r} no longer denotes it"))
             again = sl.LDAPFilter.from_string(s)
             if again != obj:
                 out.append(("parse-result-shared-with-earlier-parse", f"after the caller edited a previously parsed filter, parsing {s[:80]!r} again gives {str(av.a_filter(again))[:120]}"))
